@@ -396,3 +396,10 @@ Proof. exact dcrit_two_radii. Qed.
 Theorem C13_stale_dcrit_refuted : exists ri rj dci dcj d2,
   0 <= ri /\ 0 <= rj /\ 0 < Rmax dci dcj /\ d2 <= (ri + rj) * (ri + rj) /\ ~ (d2 < 121 / 100 * (Rmax dci dcj * Rmax dci dcj)).
 Proof. exact stale_dcrit_not_flagged. Qed.
+
+(* the hypothesis "dcrit is recomputed after every change" over the table REGENERATED from the current source: every function
+   with a simulation parameter that increments r->N or assigns a particle's r or m refreshes dcrit on every path *)
+From RV Require Import Gen.C13Dcrit C13.DcritSites.
+Theorem C13_dcrit_refreshed_at_every_site : forall s, In s dcrit_sites -> snd s = true.
+Proof. exact dcrit_site_refreshed. Qed.
+Print Assumptions C13_dcrit_refreshed_at_every_site.
